@@ -8,6 +8,10 @@ Engine M.
 (3) task::extract_showincludes on outputs of <= 3 lines, each symbolically an include note (symbolic padding, name
     bytes, optional CR) or ordinary text: `includes` are exactly the names in order and the filtered output is
     exactly the ordinary lines joined by newlines.
+(4) S-task chain (checks/taskchain.py): (1) with the REAL Runner::start/wait, run_task, read_depfile and
+    extract_showincludes in the loop: the command reports through depfile text (missing / plain / absolute target /
+    continuation and ./ spelling / two entries) or /showIncludes notes in its output; what is remembered must be the
+    names that text reports, and the output passed on for display must be the command's output without the notes.
 The persistence of the list through the log is C07/C08's subject; depfile parsing is C15's.
 """
 import z3
@@ -19,6 +23,7 @@ from lib.driver import Violation
 from lib.mcheck import Replayer, finish_exploration, hexs, load_interp, merge_cov
 from checks import dirtykernel as DK
 from checks import sfull
+from checks import taskchain
 
 LEVEL = 'other'
 NOTE = b'Note: including file: '
@@ -93,6 +98,7 @@ class ShowIncludes:
 
 def run(ctx, out):
     sfull.run_chain(ctx, out, 'C09', {'C09'})
+    taskchain.run_taskchain(ctx, out, 'C09', {'C09'})
     DK.run_kernel(ctx, out, 'C09', {'C09'})
     I = load_interp(ctx)
     rep = Replayer(ctx.tree)
@@ -118,10 +124,13 @@ def run(ctx, out):
                    'showincludes': '<= 3 lines, names / text of 1-2 symbolic bytes, padding 0-2, optional CR'},
         'outside_the_claim': ['persistence across more than one reload (C07/C08)', 'depfile syntax (C15)', 'ordering: discovered deps never order (C01 harness)'],
     })
-    out.assumptions += ['symbolic file system; recording hasher; log-file model', 'executor model reports the dependency list symbolically']
+    out.assumptions += ['symbolic file system; recording hasher; log-file model', 'executor model reports the dependency list symbolically',
+                        'S-task: std::thread::spawn runs the closure at the spawn point, mpsc is a FIFO queue, process::run_command is the executor model (output chunks, file effects, depfile text)']
 
 
 def replay(ctx, cex):
+    if 'variant' in cex['replay']:
+        return taskchain.replay_taskchain(ctx, cex)
     if 'extra' in cex['replay']:
         return sfull.replay_chain(ctx, cex)
     if cex['replay'].get('cmd', '').startswith('dirty1'):
